@@ -188,6 +188,8 @@ type SvcConfig struct {
 	TTL            time.Duration // sys.Never, sys.Forever or a finite duration
 	CheckExistence bool
 	MaxFacts       int
+	// NoCachePending: with TTL never, a location being opened is not entered in the cache
+	NoCachePending bool
 }
 
 // SvcEngine is a sys.System wired to a SimStorage and a Cronner, with the
@@ -204,7 +206,7 @@ type SvcEngine struct {
 func NewSvcEngine(cfg SvcConfig, store *h.SimStorage, cr cron.Cronner) (*SvcEngine, error) {
 	ctx := h.NewCtx(h.Prot{})
 	conf := sys.SystemConfig{Storage: "memory", UnindexedState: cfg.State == "linear", CheckExistence: cfg.CheckExistence}
-	cont := sys.SystemControl{LocationTTL: cfg.TTL, CachePending: true}
+	cont := sys.SystemControl{LocationTTL: cfg.TTL, CachePending: !cfg.NoCachePending}
 	ctl := h.QuietControl()
 	if cfg.MaxFacts > 0 {
 		ctl.MaxFacts = cfg.MaxFacts
